@@ -806,7 +806,8 @@ def compare_engine(case, io, mo):
         return None
     if r[0] == "amb":
         raise core.Ambiguous()
-    if _overlap_band(case["py"], io["layout"]):
+    if not r[1].startswith(("node[", "nodeHeight", "order of tl.nodes", "model says")) and _overlap_band(case["py"], io["layout"]):
+        # (sizes, layer thickness and node order do not depend on overlap counts)
         # two ideal intervals whose ends the doubles make EQUAL while the exact values differ (or the
         # other way round): intervaltree then counts one overlap more or less than the exact model
         raise core.Ambiguous()
@@ -830,6 +831,8 @@ def _overlap_band(py, lay):
     and in exact arithmetic on the same double inputs: the two interval ends are within an
     ulp of each other (seen in the soak: ideal 104.50000000000001 + 83/2 rounds to 146.0,
     the other label starts at exactly 146.0)."""
+    if labella_opts(py).get("algorithm", "overlap") != "overlap":
+        return False              # only the greedy distributor counts overlaps
     side = effective(py)["direction"] in ("left", "right")
     its = [(float(n["ideal"]), float(n["h"] if side else n["w"])) for n in lay["nodes"]]
     for i, (pi, wi) in enumerate(its):
